@@ -12,6 +12,7 @@ import KinModel.Gen.BodyDecoders
 import KinModel.Gen.BodyEncoders
 import KinModel.Lemmas.C13Flow
 import KinModel.C13Iter
+import KinModel.Lemmas.C13Trace
 namespace KinModel.C13
 open Stream
 
@@ -1222,5 +1223,223 @@ example :
   exact Exec.branchStop _ _ _ [.ret 5] _ (by simp [branches]) (Exec.ret _ _ _) rfl
 
 end FlowPart
+
+/-! ## Part 6 — the hand-written stream model follows the regenerated skeleton (event traces, KinModel/C13Trace.lean)
+
+Part 5 checks the skeleton against the property and counts its statements; this part ties the *model* of Part 1 to
+it: what `Stream.bodyPhase` does to the request is what one complete path of the regenerated skeleton of
+ValidateRequestBody does when its events are executed concretely, and conversely. -/
+section TracePart
+open Trace Gen
+
+/-- the complete paths of ValidateRequestBody in the source, as stream events (regenerated table; a loop, `continue`,
+    `break`, `if data != nil` or anything unrecognised would appear as `unsupported` and break this obligation) -/
+theorem vrb_trace_set :
+    tracesL (bodyOf "ValidateRequestBody" c13BodyFlow) =
+      [([.guard true, .read, .restore], true), ([.guard true, .read, .restore, .install], true),
+       ([.guard false], true), ([.guard false, .install], true)] := by decide +kernel
+
+/-- **The model's body phase is a path of the code.**  For every request, `required` flag and schema outcome: the
+request `Stream.bodyPhase` returns is the result of executing — with the stream operations `readAll`, `drain`,
+`restore` and the install of the re-encoded bytes — one complete path (ending in `return`) of the regenerated
+skeleton of ValidateRequestBody whose guard outcome is that of the request.  Full strength. -/
+theorem bodyPhase_is_a_skeleton_path (required : Bool) (outcome : Bytes → BodyOutcome) (r : Req) :
+    ∃ t, (t, true) ∈ tracesL (bodyOf "ValidateRequestBody" c13BodyFlow) ∧ consistent t r = true ∧
+      (bodyPhase required outcome r).1 = runTrace (newData outcome r) t r := by
+  rw [vrb_trace_set]
+  cases hb : r.body with
+  | none => exact ⟨[.guard false], by simp, by simp [consistent, hb], by simp [bodyPhase, hb, runTrace, stepEv]⟩
+  | some data =>
+    cases data with
+    | nil =>
+      exact ⟨[.guard true, .read, .restore], by simp, by simp [consistent, hb],
+        by simp [bodyPhase, hb, runTrace, stepEv, readAll]⟩
+    | cons x xs =>
+      cases ho : outcome (x :: xs) with
+      | rewrite nd =>
+        exact ⟨[.guard true, .read, .restore, .install], by simp, by simp [consistent, hb],
+          by simp [bodyPhase, hb, runTrace, stepEv, readAll, newData, ho]⟩
+      | reject =>
+        exact ⟨[.guard true, .read, .restore], by simp, by simp [consistent, hb],
+          by simp [bodyPhase, hb, runTrace, stepEv, readAll, ho]⟩
+      | accept =>
+        exact ⟨[.guard true, .read, .restore], by simp, by simp [consistent, hb],
+          by simp [bodyPhase, hb, runTrace, stepEv, readAll, ho]⟩
+      | rewriteFails =>
+        exact ⟨[.guard true, .read, .restore], by simp, by simp [consistent, hb],
+          by simp [bodyPhase, hb, runTrace, stepEv, readAll, ho]⟩
+
+/- Full statement (not provable: the skeleton does not keep the condition `len(data) == 0`):
+   every complete path of the skeleton whose guard outcome is that of the request is what `bodyPhase` does for some
+   `required` and schema outcome. -/
+/-- **Every path of the code is the model's body phase** — except the one path the skeleton has only because it does
+not keep `len(data) == 0` (`InstallWithoutRead`); a path with the default rewrite needs a non-empty body (zero bytes
+return before the schema is consulted). -/
+theorem skeleton_paths_are_bodyPhase_partial (t : List Ev) (r : Req) (nd : Bytes)
+    (ht : (t, true) ∈ tracesL (bodyOf "ValidateRequestBody" c13BodyFlow)) (hc : consistent t r = true)
+    (hx : InstallWithoutRead t = false) (hne : t.contains .install = true → readAll r ≠ []) :
+    ∃ required outcome, (bodyPhase required outcome r).1 = runTrace nd t r := by
+  rw [vrb_trace_set] at ht
+  simp only [List.mem_cons, Prod.mk.injEq, and_true, List.not_mem_nil, or_false] at ht
+  rcases ht with rfl | rfl | rfl | rfl
+  · refine ⟨true, fun _ => .accept, ?_⟩
+    cases hb : r.body with
+    | none => simp [consistent, hb] at hc
+    | some data => cases data <;> simp [bodyPhase, hb, runTrace, stepEv, readAll]
+  · refine ⟨true, fun _ => .rewrite nd, ?_⟩
+    cases hb : r.body with
+    | none => simp [consistent, hb] at hc
+    | some data =>
+      cases data with
+      | nil => simp [readAll, hb] at hne
+      | cons x xs => simp [bodyPhase, hb, runTrace, stepEv]
+  · refine ⟨true, fun _ => .accept, ?_⟩
+    cases hb : r.body with
+    | none => simp [bodyPhase, hb, runTrace, stepEv]
+    | some data => simp [consistent, hb] at hc
+  · simp [InstallWithoutRead] at hx
+
+/-- witness: inside the exclusion the path is in the skeleton, agrees with the request, and is not the model's -/
+theorem install_without_read_witness :
+    ([Ev.guard false, .install], true) ∈ tracesL (bodyOf "ValidateRequestBody" c13BodyFlow) ∧
+    consistent [.guard false, .install] ⟨none, .none, 0⟩ = true ∧ InstallWithoutRead [.guard false, .install] = true ∧
+    ∀ required outcome, (bodyPhase required outcome ⟨none, .none, 0⟩).1 ≠ runTrace [1] [.guard false, .install] ⟨none, .none, 0⟩ := by
+  refine ⟨by rw [vrb_trace_set]; simp, by decide, by decide, ?_⟩
+  intro required outcome
+  simp [bodyPhase, runTrace, stepEv]
+
+/-- non-vacuity: a request with a body, the path with the default rewrite -/
+example : ([Ev.guard true, .read, .restore, .install], true) ∈ tracesL (bodyOf "ValidateRequestBody" c13BodyFlow) ∧
+    consistent [.guard true, .read, .restore, .install] ⟨some [1, 2], .none, 2⟩ = true ∧
+    InstallWithoutRead [.guard true, .read, .restore, .install] = false ∧
+    runTrace [7] [.guard true, .read, .restore, .install] ⟨some [1, 2], .none, 2⟩ = ⟨some [7], .ok [7], 1⟩ := by
+  refine ⟨by rw [vrb_trace_set]; simp, by decide, by decide, by decide⟩
+
+/-- validateSecurityRequirement in the source, cut at its top-level loops: the paths of each straight piece and of each
+    loop body as stream events (regenerated table): return for an empty requirement; the `names` loop; return for a
+    missing authentication function, else under the body guard read + deferred restore; the scheme loop (return for
+    an undeclared scheme; under `data != nil` the restore; the callback; return or next scheme); the final return -/
+theorem sr_segments : segs (bodyOf "validateSecurityRequirement" c13BodyFlow) [] = srSegs := by decide +kernel
+
+/-- **The model's security requirement is a path of the code**, for every requirement (any number of schemes,
+declared or not, callbacks that read the body or not, succeed or not), with or without an authentication function,
+with or without a body: the request `Stream.secReq` returns and what each callback could read are the result of
+executing concretely — guards evaluated on the current state, `readAll` / `drain` / `restore`, the callbacks of the
+schemes in order, the deferred restore at the return if it was registered — one complete path, with as many
+iterations of the scheme loop as it takes, of the regenerated skeleton of validateSecurityRequirement.  Full strength. -/
+theorem secReq_is_a_skeleton_path (f : Bool) (r : Req) (schemes : List Scheme) :
+    ∃ t s', SegPath (segs (bodyOf "validateSecurityRequirement" c13BodyFlow) []) t ∧
+      runR t ⟨r, none, false, schemes.map (·.auth), []⟩ = some s' ∧
+      finish s' = (secReq f r schemes).1 ∧ s'.seen = (secReq f r schemes).2.2 := by
+  rw [sr_segments]; exact secReq_follows_srSegs f r schemes
+
+/-- non-vacuity: two schemes whose callbacks read the body, the second fails; GetBody absent: the path reads, registers
+    the deferred restore, restores before each callback, returns from inside the loop — and the body is whole again -/
+example :
+    SegPath srSegs ([] ++ ([.guard true, .read, .deferRestore] ++ ([.dataGuard true, .restore, .callback] ++
+      [.dataGuard true, .restore, .callback]))) ∧
+    (runR [.guard true, .read, .deferRestore, .dataGuard true, .restore, .callback, .dataGuard true, .restore, .callback]
+      ⟨⟨some [1, 2], .none, 2⟩, none, false, [⟨true, true⟩, ⟨true, false⟩], []⟩).map finish = some ⟨some [1, 2], .ok [1, 2], 2⟩ ∧
+    (secReq true ⟨some [1, 2], .none, 2⟩ [⟨true, ⟨true, true⟩⟩, ⟨true, ⟨true, false⟩⟩]).1 = ⟨some [1, 2], .ok [1, 2], 2⟩ := by
+  refine ⟨?_, by decide, by decide⟩
+  exact SegPath.straightFall _ _ _ _ (by simp) (SegPath.loopExit _ _ _ (SegPath.straightFall _ _ _ _ (by simp)
+    (SegPath.loopFall _ _ _ _ (by simp [srLoopPaths]) (SegPath.loopRet _ _ _ (by simp [srLoopPaths])))))
+
+/-- ValidateSecurityRequirements and ValidateRequest in the source, cut at their loops (regenerated table): the former
+    returns for an empty list, else calls validateSecurityRequirement per requirement and `continue`s or returns; the
+    latter calls ValidateSecurityRequirements (return or go on), ValidateParameter in two loops (`continue`, return or
+    next), ValidateRequestBody, and returns -/
+theorem vsr_vr_segments :
+    segs (bodyOf "ValidateSecurityRequirements" c13BodyFlow) [] = vsrSegs ∧
+    segs (bodyOf "ValidateRequest" c13BodyFlow) [] = vrSegs := by decide +kernel
+
+/-- **The model's security phase is a path of the code**: request and what the callbacks could read, for every list of
+requirements, = the run of one complete path of the regenerated skeleton of ValidateSecurityRequirements in which
+each call of validateSecurityRequirement is executed by `Stream.secReq` on the next requirement.  Full strength. -/
+theorem secPhase_is_a_skeleton_path (c : Cfg) (oc : Bytes → BodyOutcome) (r : Req) (reqs : List (List Scheme)) :
+    ∃ t s', SegPath (segs (bodyOf "ValidateSecurityRequirements" c13BodyFlow) []) t ∧
+      runK c oc t ⟨r, [], reqs⟩ = some s' ∧
+      s'.req = (secPhase c.hasAuthFunc r reqs).1 ∧ s'.seen = (secPhase c.hasAuthFunc r reqs).2.2 := by
+  rw [vsr_vr_segments.1]; exact secPhase_follows_vsrSegs c oc r reqs
+
+/-- **The whole stream model is a path of the code**: for every configuration (security requirements, authentication
+function, parameters' verdict, fail-first or multi-error, body specified / required, schema outcome) and request, the
+request `Stream.validateStream` returns = the run of one complete path of the regenerated skeleton of
+ValidateRequest, its calls executed by the stream models of the called functions (`secPhase`, `bodyPhase`;
+ValidateParameter leaves the stream alone) — which are themselves paths of their skeletons
+(`secPhase_is_a_skeleton_path`, `secReq_is_a_skeleton_path`, `bodyPhase_is_a_skeleton_path`).  Full strength. -/
+theorem validateStream_is_a_skeleton_path (c : Cfg) (oc : Bytes → BodyOutcome) (r : Req) :
+    ∃ t s', SegPath (segs (bodyOf "ValidateRequest" c13BodyFlow) []) t ∧
+      runK c oc t ⟨r, [], []⟩ = some s' ∧ s'.req = (validateStream c oc r).1 := by
+  rw [vsr_vr_segments.2]; exact validateStream_follows_vrSegs c oc r
+
+/-- what `stepK` assumes of ValidateParameter: its skeleton has no statement that touches the body stream, no callback,
+    no call of a function of the table, nothing unrecognised -/
+theorem validateParameter_leaves_stream_alone :
+    (Flow.census (bodyOf "ValidateParameter" c13BodyFlow)).take 5 = [0, 0, 0, 0, 0] ∧
+    Flow.countL Flow.isUnrecognised (bodyOf "ValidateParameter" c13BodyFlow) = 0 ∧
+    Flow.countL isCall (bodyOf "ValidateParameter" c13BodyFlow) = 0 := by decide +kernel
+
+/-- **body_readable_after on the code's own skeleton, concretely.**  Take ANY complete path of the regenerated skeleton of
+validateSecurityRequirement — whichever way its conditions fall, any number of iterations of its loops — any
+callbacks (reading the body or not), and a request with body `data` whose GetBody (if any) rewinds to `data`.  If the
+path can be executed at all (its guard outcomes are those of the states it passes through), then after the return —
+deferred restore included — the next reader gets `data` in full, GetBody rewinds to it, and every callback that ran
+could read all of it.  No hand-written model of the function's control flow is involved: only the meaning of the
+events (`stepR`).  Full strength. -/
+theorem secReq_skeleton_body_readable (data : Bytes) (r : Req) (h : Coherent r data) (auths : List Auth) (t : List Ev)
+    (hp : SegPath (segs (bodyOf "validateSecurityRequirement" c13BodyFlow) []) t) (s' : RSt)
+    (hr : runR t ⟨r, none, false, auths, []⟩ = some s') :
+    Readable (finish s') data ∧ ∀ x ∈ s'.seen, x = data := by
+  rw [sr_segments] at hp; exact srSegs_readable data r h auths t hp s' hr
+
+/-- **body_readable_after on the skeleton of ValidateRequestBody, concretely**: every complete path of the regenerated
+skeleton whose guard outcome is that of a request with body `data` (GetBody, if any, rewinding to `data`) ends with
+a request from which the next reader gets the whole body — the re-encoded bytes if the path installed them, else
+`data` — and whose GetBody rewinds to the same.  Only the meaning of the events (`stepEv`) is hand-written.
+Full strength. -/
+theorem bodyPhase_skeleton_body_readable (data nd : Bytes) (r : Req) (h : Coherent r data) (t : List Ev)
+    (ht : (t, true) ∈ tracesL (bodyOf "ValidateRequestBody" c13BodyFlow)) (hc : consistent t r = true) :
+    Readable (runTrace nd t r) (if t.contains .install then nd else data) := by
+  rw [vrb_trace_set] at ht
+  simp only [List.mem_cons, Prod.mk.injEq, and_true, List.not_mem_nil, or_false] at ht
+  obtain ⟨hb, hg⟩ := h
+  rcases ht with rfl | rfl | rfl | rfl
+  · have e : runTrace nd [.guard true, .read, .restore] r = restore (drain r) data := by
+      simp [runTrace, stepEv, readAll, hb]
+    rw [e]
+    exact ⟨by simp [readAll, restore_body _ _ (drain_getOK _ _ hg)], by simpa using restore_getOK _ _ (drain_getOK _ _ hg)⟩
+  · simp [runTrace, stepEv, Readable, readAll, GetOK]
+  · simp [consistent, hb] at hc
+  · simp [consistent, hb] at hc
+
+/-- **body_readable_after on the skeleton of ValidateRequest, over all its paths**: any complete path of the regenerated
+skeleton of ValidateRequest (security or not, any number of parameters, `continue`s, early returns, body validated
+or not), its calls executed by the stream models of the callees (which are paths of their own skeletons, and whose
+skeletons keep the body readable: the theorems above), started on a request with body `data`: if it can be executed,
+the next reader gets the whole body — `data`, or the re-encoded body when ValidateRequestBody ran and set defaults —
+and GetBody rewinds to it.  Full strength. -/
+theorem validateRequest_skeleton_body_readable (c : Cfg) (oc : Bytes → BodyOutcome) (data : Bytes) (r : Req)
+    (h : Coherent r data) (t : List Ev) (hp : SegPath (segs (bodyOf "ValidateRequest" c13BodyFlow) []) t)
+    (pend : List (List Scheme)) (s' : KSt) (hr : runK c oc t ⟨r, [], pend⟩ = some s') :
+    Readable s'.req data ∨ Readable s'.req (bodyExpected oc data) := by
+  rw [vsr_vr_segments.2] at hp
+  rcases vrSegs_readable c oc data _ _ hp (by simp [vrSuffixes]) _ s' h hr with ⟨hb, hg⟩ | ⟨hb, hg⟩
+  · exact Or.inl ⟨by simp [readAll, hb], hg⟩
+  · exact Or.inr ⟨by simp [readAll, hb], hg⟩
+
+/-- **… and of ValidateSecurityRequirements**: any complete path of its regenerated skeleton (any number of requirements
+tried, `continue` after a failing one, return at the first satisfied one or after the last), each call of
+validateSecurityRequirement executed by `Stream.secReq` on the next pending requirement: the body is whole
+afterwards, GetBody rewinds to it, and every callback that ran could read all of it.  Full strength. -/
+theorem secPhase_skeleton_body_readable (c : Cfg) (oc : Bytes → BodyOutcome) (data : Bytes) (r : Req)
+    (h : Coherent r data) (t : List Ev) (hp : SegPath (segs (bodyOf "ValidateSecurityRequirements" c13BodyFlow) []) t)
+    (pend : List (List Scheme)) (s' : KSt) (hr : runK c oc t ⟨r, [], pend⟩ = some s') :
+    Readable s'.req data ∧ ∀ x ∈ s'.seen, x = data := by
+  rw [vsr_vr_segments.1] at hp
+  obtain ⟨⟨hb, hg⟩, hs⟩ := vsrSegs_readable c oc data _ _ hp (by simp [vsrSuffixes]) ⟨r, [], pend⟩ s' ⟨h, by simp⟩ hr
+  exact ⟨⟨by simp [readAll, hb], hg⟩, hs⟩
+
+end TracePart
 
 end KinModel.C13
